@@ -130,6 +130,41 @@ def pipe_encode(case, res):
     return "[" + "; ".join(ops) + "]", "[" + "; ".join(obs) + "]", None
 
 
+def py_slice_len(n, cap):
+    return max(0, n + cap) if cap < 0 else min(n, cap)
+
+
+def py_valid_step(st, L, cap, sel, st2):
+    """Python mirror of Sampler.valid_stepb on integer keys (used for lists too long for vm_compute; it is run on
+    every small history as well and must agree there with the verdict computed in Coq).  Returns None or the clause."""
+    from collections import Counter
+    cl, cs = Counter(L), Counter(sel)
+    if any(cs[k] > cl.get(k, 0) for k in cs):
+        return "selected combinations are not a sub-multiset of the candidates"
+    if len(sel) != py_slice_len(len(L), cap):
+        return "number of selected combinations %d != len(candidates[:cap]) = %d" % (len(sel), py_slice_len(len(L), cap))
+    rest = [st.get(b, 0) for b in cl if cs.get(b, 0) < cl[b]]
+    if sel and rest and max(st.get(a, 0) for a in sel) > min(rest):
+        return "a selected combination had been evaluated more often than an unselected candidate"
+    for k in set(st) | set(st2) | set(cl) | set(cs):
+        if st2.get(k, 0) != st.get(k, 0) + cs.get(k, 0):
+            return "reported count of a combination != previous count + times selected"
+    return None
+
+
+def big_cases(rng, tier):
+    """Scale families: more than 2^16 candidates in one list; more than 2^17 tracked combinations over two
+    alternating lists.  Judged by py_valid_step."""
+    n = 70000 + rng.randint(0, 3000)
+    out = [{"lists": {"x": n}, "ops": [["x", 2 ** 15], ["x", 2 ** 15], ["x", 2 ** 15], ["x", n - 1 - rng.randint(0, 5)], ["x", 300]]},
+           {"lists": {"x": 68000 + rng.randint(0, 999), "y": 69000 + rng.randint(0, 999)},
+            "ops": [["x", 300], ["y", 300], ["x", 300], ["y", 2 ** 15], ["x", 300], ["x", 300]]}]
+    if tier == "thorough":
+        out.append({"lists": {"x": 140000, "y": 5000}, "ops": [["x", 70000], ["y", 10], ["x", 70000], ["x", 2 ** 15], ["y", 5000]]})
+        out.append({"lists": {"x": 4096 + 7}, "ops": [["x", 1000]] * 6})
+    return out
+
+
 def load_corpus(pid):
     d = os.path.join(vlib.VERIF, "corpus", pid)
     out = []
@@ -184,7 +219,10 @@ def check(run, replay):
         pipe_cases = []
     else:
         pipe_cases = [gen_pipe_case(run.rng) for _ in range(60 if run.tier == "quick" else 400)]
-    both = vlib.run_impl("impl_c07.py", {"cases": cases, "pipe_cases": pipe_cases})
+    bigs = big_cases(run.rng, run.tier) if replay is None else ([replay["case"]] if replay["case"].get("kind") == "big" else [])
+    if replay is not None and replay["case"].get("kind") == "big":
+        cases = []
+    both = vlib.run_impl("impl_c07.py", {"cases": cases, "pipe_cases": pipe_cases, "big_cases": bigs})
     res = both["results"]
 
     header = ("From Coq Require Import List ZArith.\nFrom Outrank Require Import Pipeline.Sampler.\n"
@@ -237,10 +275,37 @@ def check(run, replay):
             c["caps"] = c["caps"][:k + 1]
             run.violation("counterexample", "C07_checker (valid_stepb) on mixed_rank_graph batches",
                           case=c, impl=both["pipe"][i]["obs"][k], clause="valid_step fails at batch %d: evaluated pairs / counter" % k)
+    # scale families, judged by the Python mirror of the checker
+    nbig = 0
+    for c, r in zip(bigs, both.get("big", [])):
+        c["kind"] = "big"
+        run.count_case(c, True)
+        if not r["ok"]:
+            run.violation("counterexample", "impl-raises (long candidate list)", case=c, impl=r["error"], clause="call terminates normally")
+            continue
+        off, L = 0, {}
+        for name in sorted(c["lists"]):
+            L[name] = list(range(off, off + c["lists"][name]))
+            off += c["lists"][name]
+        st = {}
+        for k, ((name, cap), o) in enumerate(zip(c["ops"], r["obs"])):
+            st2 = {i: v for i, v in o["counter"]}
+            bad = py_valid_step(st, L[name], cap, o["sel"], st2)
+            if bad:
+                cc = dict(c)
+                cc["ops"] = c["ops"][:k + 1]
+                run.violation("counterexample", "valid_step (Python mirror of valid_stepb) on a long candidate list",
+                              case=cc, impl={"selected": len(o["sel"]), "distinct_selected": len(set(o["sel"]))},
+                              clause="call %d: %s" % (k, bad))
+                break
+            st = st2
+            nbig += 1
+    run.cov["long_list_calls_checked"] = nbig
     run.cov["pipeline_histories_checked"] = len(pidx)
     run.oblige("correspondence:valid_step on implementation histories", True)
     ncmp = 0
     ndiff_model = 0
+    mirror_disagreements = []
     for i, v in zip(idx, vals):
         steps, lenok, fair, model = v
         c, r = cases[i], res[i]
@@ -255,14 +320,32 @@ def check(run, replay):
         if bad:
             run.violation("counterexample", "C07_checker (valid_stepb / fairb) on implementation history",
                           case=c, impl=r["obs"][:len(c["ops"])], model=repr(model)[:2000], clause=bad)
+        # the Python mirror of the checker must agree with Coq on every small history
+        ids_ = encode(cases[i], r)[2]
+        st_ = {}
+        py_steps = []
+        for (L_, cap_), o_ in zip(cases[i]["ops"], r["obs"]):
+            Lk = [ids_[tuple(t_)] for t_ in L_]
+            sel_ = [ids_[tuple(t_)] for t_ in o_["sel"]]
+            st2_ = {ids_[tuple(k_)]: v_ for k_, v_ in o_["counter"]}
+            py_steps.append(py_valid_step(st_, Lk, cap_, sel_, st2_) is None)
+            st_ = st2_
+        if py_steps != list(steps):
+            mirror_disagreements.append(i)
         # informational: same tie-breaking as the stable-sort transcription?
         ids = encode(cases[i], r)[2]
         inv = {v_: k for k, v_ in ids.items()}
         m_sel = [[list(inv[k]) for k in sel] for sel, _ in model]
         if m_sel != [o["sel"] for o in r["obs"]]:
             ndiff_model += 1
-    if run.violations:
-        run.obligations[-1] = (run.obligations[-1][0], False, "%d histories rejected" % len(run.violations))
+    run.oblige("python mirror of valid_stepb agrees with Coq on every small history", not mirror_disagreements,
+               "disagreements on cases %s" % mirror_disagreements[:5])
+    if mirror_disagreements:
+        run.violation("broken-obligation", "py_valid_step != valid_stepb", case=cases[mirror_disagreements[0]], found_input=False)
+    if any(v["found_input"] for v in run.violations):
+        for j, o in enumerate(run.obligations):
+            if o[0].startswith("correspondence:valid_step"):
+                run.obligations[j] = (o[0], False, "%d histories rejected" % len(run.violations))
     run.cov["histories_checked_in_coq"] = ncmp
     run.cov["tie_breaking_differs_from_stable_sort_transcription"] = ndiff_model
     run.cov["input_distribution"] = hist
